@@ -92,6 +92,7 @@ class Node:
         self.tzids = []        # [NAME, tzid] per property entry carrying a TZID parameter
         self.children = []
         self.vtz_id = vtz_id   # for VTIMEZONE nodes
+        self.names = []        # generation only: names of all properties added so far (zoned or not)
 
     def walk(self):
         yield self
@@ -183,6 +184,7 @@ def generate(rng, cfg):
             next_id[0] += 1
             node = Node(nid, kind)
             node.tzids = _entry_tzids(props)
+            node.names = [p["name"] for p in props]
             parent.children.append(node)
             trace.append([c, "add_comp", {"id": nid, "parent": parent.id, "kind": kind, "via": via, "props": props,
                                           "lower": via == "parse" and rng.random() < 0.15}])
@@ -192,6 +194,15 @@ def generate(rng, cfg):
                 continue
             node = rng.choice(nodes)
             p = _propspec(rng, node.kind, ids, "api")
+            again = [n for n in node.names if n in LIST_PROPS]
+            if again and rng.random() < 0.35:
+                # one more line of a multi-valued property that is already there (one add() per line), preferably
+                # in a zone that nothing else in the calendar uses
+                fresh = [t for t in ids if t not in m_used(root)]
+                p = {"name": rng.choice(again), "shape": "list", "tzkind": "param",
+                     "tzid": rng.choice(fresh or ids) if rng.random() < 0.8 else None,
+                     "vals": [rng.choice(WALLS) for _ in range(rng.randint(1, 2))]}
+            node.names.append(p["name"])
             node.tzids += _entry_tzids([p])
             trace.append([c, "add_prop", {"comp": node.id, "prop": p}])
         elif op in ("del_prop", "replace_prop", "edit_param"):
